@@ -85,6 +85,8 @@ class CFG:
                     caught_all = True
                 elif exc_name is not None and exc_name in classes:
                     caught_all = True
+                elif exc_name is not None and exc_name.startswith('PyCdlib') and 'PyCdlibException' in classes:
+                    caught_all = True
             if caught_all:
                 return
         self._edge(n, self.raise_exit, lab)
